@@ -150,7 +150,7 @@ func ruleR05_3(c *Check) {
 			ctpOf := func(n string) func(ast.Expr) bool {
 				return func(e ast.Expr) bool {
 					c, ok := unparen(e).(*ast.CallExpr)
-					return ok && w.Callee(c) == types.Object(ctp) && len(c.Args) == 1 && isCallNamed(w, c.Args[0], n)
+					return ok && w.Callee(c) == types.Object(ctp) && len(c.Args) == 1 && isCallNamed(w, w.from(c.Args[0]), n)
 				}
 			}
 			switch {
@@ -209,6 +209,8 @@ func propC05(c *Check) {
 	ruleR05_1(c)
 	ruleR05_2(c)
 	ruleR05_3(c)
+	ruleR05_4(c)
+	ruleR12_6(c)
 	ruleR01_2(c)
 }
 
@@ -292,19 +294,15 @@ func ruleR33_2(c *Check) {
 			if o, set, ok := w.maskTest(x.Cond); ok && o == w.Obj("badger.bitDelete") && set && ret == "true" {
 				okDel = true
 			}
-			if be, ok := unparen(x.Cond).(*ast.BinaryExpr); ok && be.Op == token.EQL && ret == "false" {
-				if id, ok := unparen(be.X).(*ast.Ident); ok && w.Use(id) == types.Object(exp) {
-					if v, ok := w.constInt(be.Y); ok && v == 0 {
-						okZero = true
-					}
-				}
+			if op, ok := w.cmpRoles(x.Cond, true, func(e ast.Expr) bool { id, ok := unparen(e).(*ast.Ident); return ok && w.Use(id) == types.Object(exp) }, w.isConst(0)); ok && op == token.EQL && ret == "false" {
+				okZero = true
 			}
 		case *ast.ReturnStmt:
 			if len(x.Results) == 1 {
-				if be, ok := unparen(x.Results[0]).(*ast.BinaryExpr); ok && be.Op == token.LEQ {
-					if id, ok := unparen(be.X).(*ast.Ident); ok && w.Use(id) == types.Object(exp) && w.mentions(be.Y, w.Func("time.Now")) {
-						okCmp = true
-					}
+				isExp := func(e ast.Expr) bool { id, ok := unparen(e).(*ast.Ident); return ok && w.Use(id) == types.Object(exp) }
+				isNow := func(e ast.Expr) bool { return w.mentions(e, w.Func("time.Now")) }
+				if op, ok := w.cmpRoles(x.Results[0], true, isExp, isNow); ok && op == token.LEQ {
+					okCmp = true
 				}
 			}
 		}
@@ -373,13 +371,9 @@ func ruleR28_1(c *Check) {
 	cs := w.F("badger.Txn.checkSize")
 	for _, s := range cs.Sites(selOr(selStore(w.Field("badger.Txn.count")), selStore(w.Field("badger.Txn.size")))) {
 		// after the limit test (early return ErrTxnTooBig)
-		ok := false
-		for _, g := range w.Guards(cs, s) {
-			if g.Implicit && !g.Val && w.mentions(g.Cond, w.Field("badger.Options.maxBatchSize")) {
-				ok = true
-			}
-		}
-		r.Check(ok, cs, "counters committed only when the entry fits", s, "count/size stored before the limit test")
+		mbs := w.Field("badger.Options.maxBatchSize")
+		op, g := w.guardRel(w.Guards(cs, s), func(e ast.Expr) bool { return w.fieldOf(e) != mbs }, w.isField(mbs), false)
+		r.Check(g != nil && op == token.LSS, cs, "counters committed only when the entry fits", s, "count/size stored before the limit test (no `size < maxBatchSize` holds at the store)")
 	}
 }
 
@@ -491,22 +485,29 @@ func ruleR28_2(c *Check) {
 	})
 	r.Check(okCnt, nt, "count reserves the end-of-transaction entry", nil, "Txn.count does not start at 1")
 	// same comparison on both sides
+	// what holds on the success path of each: count < maxBatchCount and size < maxBatchSize
+	// (however the refusal is spelled: `a >= x || b >= y`, `!(a < x && b < y)`, two ifs, …)
 	cmpOf := func(f *Fn) string {
 		out := ""
-		f.walk(func(n ast.Node) bool {
-			if is, ok := n.(*ast.IfStmt); ok && w.mentions(is.Cond, w.Field("badger.Options.maxBatchSize")) && w.mentions(is.Cond, w.Field("badger.Options.maxBatchCount")) {
-				for _, p := range flatten(is.Cond, token.LOR) {
-					if be, ok := unparen(p).(*ast.BinaryExpr); ok {
-						out += be.Op.String()
-					}
+		for _, lim := range []*types.Var{w.Field("badger.Options.maxBatchCount"), w.Field("badger.Options.maxBatchSize")} {
+			lim := lim
+			ops := map[string]bool{}
+			for _, e := range f.successExits() {
+				op, g := w.guardRel(w.Guards(f, e.Node), func(x ast.Expr) bool { return w.fieldOf(x) != lim }, w.isField(lim), false)
+				if g == nil {
+					ops["?"] = true
+				} else {
+					ops[op.String()] = true
 				}
 			}
-			return true
-		})
+			for o := range ops {
+				out += o
+			}
+		}
 		return out
 	}
 	a, b := cmpOf(cs), cmpOf(w.F("badger.DB.sendToWriteCh"))
-	r.Check(a == b && a == ">=>=", cs, "accept test and commit test use the same comparison", nil, "checkSize compares with '"+a+"', sendToWriteCh with '"+b+"'")
+	r.Check(a == b && a == "<<", cs, "accept test and commit test use the same comparison", nil, "on its success path checkSize knows count/size '"+a+"' the limits, sendToWriteCh '"+b+"'")
 	// the estimate: k + v + 2 (inline) — read, so that a change of the estimate is noticed here
 	es := w.F("badger.Entry.estimateSizeAndSetThreshold")
 	two := 0
